@@ -50,7 +50,8 @@ def getView (j : Json) : R View := do
   pure { rate := rate, samples := st.1, times := st.2, spikeClusters := ← getNats j "sc",
          spikeTemplates := ← getNats j "st", amplitudes := List.replicate namp 0,
          nTemplates := ← getNat j "n_templates", channelMap := ← getNats j "channel_map",
-         channelProbes := ← getNats j "channel_probes", features := ← getBool j "features" }
+         channelProbes := ← getNats j "channel_probes",
+         featRows := ← if hasFld j "feat_rows" then some <$> getNat j "feat_rows" else pure none }
 
 def jErr : Option Err → Json
   | none => Json.null
